@@ -360,6 +360,10 @@ pub struct Txn {
     /// OTAA credentials (JoinEUI, DevEUI, AppKey)
     #[serde(default)]
     pub alt_identity: bool,
+    /// the application's RNG has a bad moment: the first `count` numbers it hands out during this operation are all
+    /// `value` (then it recovers): (value, count)
+    #[serde(default)]
+    pub rng_stuck: Option<(u32, u16)>,
 }
 
 #[derive(Clone, Debug, PartialEq, Eq, Serialize, Deserialize)]
@@ -569,6 +573,16 @@ fn simplify_txn(t: &Txn) -> Vec<Txn> {
         let mut c = t.clone();
         c.alt_identity = false;
         out.push(c);
+    }
+    if let Some((v, k)) = t.rng_stuck {
+        let mut c = t.clone();
+        c.rng_stuck = None;
+        out.push(c);
+        if k > 1 {
+            let mut c = t.clone();
+            c.rng_stuck = Some((v, k / 2));
+            out.push(c);
+        }
     }
     if t.nb_power_cut == Some(2) {
         let mut c = t.clone();
